@@ -37,4 +37,6 @@ package encoding
 //@ func YamlToJson
 //@   property C17
 //@   ghost at after Unmarshal#0: yv = val
+// (the decoder sees the document's bytes as they are: no trimming or other rewriting first - a trailing block scalar keeps its newline)
+//@   call Unmarshal#0: assert sameSlice(raw0, data)
 //@   call encodeToJSON#0: assert arg_val == toStringKeyMap(val)
